@@ -2,6 +2,14 @@
 """Rewrites the seeded-change table of DESIGN.md (between the SEEDTABLE markers) from /verif/seeded/*/meta.json."""
 import json, glob, os, re
 rows = []
+# results of the thorough tier's must-fail replay (evidence files), preferred over the development sweep's record
+selftest = {}
+for f in glob.glob('/verif/evidence/C*.json'):
+    try:
+        for r in json.load(open(f))['coverage'].get('selftest') or []:
+            selftest[r['seed']] = r
+    except Exception:
+        pass
 for d in sorted(glob.glob('/verif/seeded/*/')):
     sid = os.path.basename(d.rstrip('/'))
     m = json.load(open(d + 'meta.json'))
@@ -9,7 +17,15 @@ for d in sorted(glob.glob('/verif/seeded/*/')):
     what = (m.get('summary') or ' '.join(m.get('needs_to_manifest', [])[:2])).replace('|', '/').replace('\n', ' ')
     what = re.sub(r'\s+', ' ', what)[:170]
     det = m.get('detected_by')
-    if isinstance(det, dict):
+    st = selftest.get(sid)
+    if st:
+        if st['result'] == 'caught':
+            r = 'caught: `' + st.get('first_failed_obligation', '') + '`'
+        elif st['result'] == 'MISSED':
+            r = '**missed** (check passes)'
+        else:
+            r = st['result'][:120]
+    elif isinstance(det, dict):
         if det.get('missed'):
             r = '**missed** (check passes)'
         elif det.get('failed_obligations'):
